@@ -159,10 +159,10 @@ def single(rep, rid, crate, pattern, what=None, **kw):
     return fs[0]
 
 
-def field_of_receiver(fn, operand):
+def field_of_receiver(fn, operand, through_clone=False):
     """names of the struct fields (or captured variables) the operand's origins project"""
     out = set()
-    for o in origins(fn, operand):
+    for o in origins(fn, operand, through_clone=through_clone):
         for tok in getattr(o, 'suffix', []) or []:
             if tok.startswith('.'):
                 out.add(tok[1:].lstrip('^'))
